@@ -165,8 +165,8 @@ def conds(tier):
         for k in range(1, kmax + 1):
             cs.append(Cond("rules-%s-k%d" % (PRESETS[ps], k), "harness.c15:rules",
                            [P("par", "int", 0, npar[PRESETS[ps]]), P("hp", "int", 0, k), P("lc", "int", 0, 6 if q else 20),
-                            P("dp", "int", 0, 3 if q else len(DECO)), P("dc", "int", 0, 3 if q else len(DECO)), P("up", "bool"),
-                            P("oth", "int", 0, 1 if q else 2)],
+                            P("dp", "int", 0, 3 if q else 4), P("dc", "int", 0, 3 if q else 4), P("up", "bool"),
+                            P("oth", "int", 0, 1)],
                            fixed={"ps": ps, "k": k}, pre=["_h.lc_ok(%d, par, lc)" % ps], shard=["hp", "up", "dp"],
                            timeout=600 if q else 3000, functions=FUNCS[1:],
                            note="parent = every category of the preset with a non-empty rule; listed child category = "
